@@ -3,7 +3,7 @@
 import json, os
 HERE = os.path.dirname(os.path.dirname(os.path.abspath(__file__)))
 B = []
-def cfg(nidl=False, base=True, sw=False, regw=False, unix=False, life=0, nide=False): return dict(nidl=nidl, nide=nide, base=base, sw=sw, regw=regw, unix=unix, lifeSec=life, certKeys=["k1", "k2", "k3"])
+def cfg(nidl=False, base=True, sw=False, regw=False, unix=False, life=0, nide=False, lstate=False): return dict(nidl=nidl, nide=nide, lstate=lstate, base=base, sw=sw, regw=regw, unix=unix, lifeSec=life, certKeys=["k1", "k2", "k3"])
 def NN(k): return dict(op="NewNode", k=k)
 def AP(k): return dict(op="AuthorizePending", k=k)
 def RG(k, kind, ex="none"): return dict(op="Rogue", k=k, kind=kind, ex=ex)
@@ -38,6 +38,8 @@ beh("f14_aborts", ["C14"], cfg(), [E("k1"), M("clientAlert", "auth"), D("k1"), M
 beh("f02_nobase", ["C02"], cfg(base=False), [E("k1"), C("k1", kind="base"), C("k1"), C("k1", kind="fetch")])
 beh("f16_meta", ["C16"], cfg(), [E("k1"), D("k1", "none", "none"), D("k1", "one", "empty"), D("k1", "many", "nested"), D("k1", "dups", "large"), D("k1", "prefixlike", "nested"),
                                  C("k1", stt="ok"), C("k1", stt="none", pref="none")])
+beh("f16_listener_state", ["C16"], cfg(lstate=True), [E("k1"), D("k1", "none", "none"), D("k1", "one", "empty"), D("k1", "many", "nested"), C("k1", stt="none"), C("k1", stt="ok"), C("k1", stt="unsigned"),
+                                                    NN("k2"), D("k2"), AP("k2"), D("k2", "none", "none"), D("k2", "one", "large")])
 beh("f14_classes_auth", ["C14"], cfg(), [E("k1")] + [M(c, "auth") for c in ["empty", "short1", "short2", "nob64", "b64rand", "b64trunc", "oversize", "mixed", "dup", "badindex", "hugeEntry", "prefOnly",
                                                                               "nontls", "dropAfterHello", "dropMidHello", "silentClose"]] + [D("k1")])
 beh("f14_classes_fetch", ["C14"], cfg(sw=True), [E("k1")] + [M(c, "fetch") for c in ["empty", "short1", "short2", "nob64", "b64rand", "b64trunc", "oversize", "mixed", "dup", "badindex", "hugeEntry",
